@@ -11,7 +11,7 @@ SEEDS = [0, 1, 7]
 def enumerate_cases(tier):
     q = tier == "quick"
     cases = []
-    fams = ["lines", "diamonds", "fans", "conveyors", "combiners", "congestion"]
+    fams = ["lines", "diamonds", "fans", "conveyors", "combiners", "congestion", "fleet_dense", "splitters", "nonblocking_fleet"]
     for fam in fams:
         for cfg in factory.FAMILIES[fam](tier):
             cfg = copy.deepcopy(cfg)
